@@ -5,6 +5,7 @@
   steps of `_process_market_books`), Mw.isMwLive (which orders the matching sees).
 -/
 import Flumine.SimLoop
+import Flumine.Lemmas.Inv
 import Mathlib.Tactic.Linarith
 namespace Flumine.C07
 open Flumine Flumine.World
@@ -125,5 +126,20 @@ def samplePkg : Package := { id := 0, kind := .place, market := 1, orders := [0]
 example : (duePackages { clock := 1120, queue := [samplePkg] } 1).length = 0 ∧
           (duePackages { clock := 1121, queue := [samplePkg] } 1).length = 1 := by
   decide +kernel
+
+
+/-! ### the queue in every reachable state -/
+
+/-- whatever the history - any sequence of updates, any scripted requests, batched or not - every package
+    waiting in the simulation's queue refers only to orders that exist: the delayed execution of a package
+    (`executePackage`, whose handlers look their orders up by id) never acts on a phantom order -/
+theorem queued_packages_refer_to_orders (cfg : Config) (cl : List Client) (ss : List Strategy)
+    (us : List (Nat × Book × (Nat → List Action))) :
+    ∀ p ∈ (Inv.runUpdates { cfg := cfg, clients := cl, strategies := ss } us).queue,
+      ∀ oid ∈ (Inv.runUpdates { cfg := cfg, clients := cl, strategies := ss } us).packageOrders p,
+        OL.HasOrder (Inv.runUpdates { cfg := cfg, clients := cl, strategies := ss } us) oid := by
+  intro p hp oid ho
+  have h := (Inv.inv_reachable cfg cl ss us).queue p hp oid (List.mem_filter.mp ho).1
+  exact (Ids.hasOrder_iff _ oid).mpr h
 
 end Flumine.C07
